@@ -6502,6 +6502,7 @@ class Path(Shape, MutableSequence):
             p += subpath
         self._segments = p._segments
         self._segments[0].start = prepoint
+        self._length = None  # The cached per-segment lengths are in the old order.
         return self
 
     def subpath(self, index):
@@ -7754,6 +7755,7 @@ class Subpath:
         if isinstance(other, Matrix):
             for e in self:
                 e *= other
+            self._path._length = None  # The backing path's cached lengths are stale.
         return self
 
     def __mul__(self, other):
@@ -7889,6 +7891,7 @@ class Subpath:
         end = self.index_to_path_index(end)
         self._path._validate_connection(start - 1, prefer_second=True)
         self._path._validate_connection(end)
+        self._path._length = None  # The cached per-segment lengths are in the old order.
 
     def reverse(self):
         size = len(self)
